@@ -1,5 +1,5 @@
 (* Proofs about KV.Yaml.Fmt (the canonical formatter).  The model file contains no proofs. *)
-From KV Require Import Yaml.Fmt Yaml.FmtSort Yaml.FmtTablesRef.
+From KV Require Import Yaml.Fmt Yaml.FmtSort Yaml.FmtTablesRef Yaml.Resolve11.
 From Coq Require Import Permutation Sorted.
 
 Ltac inv H := inversion H; subst; clear H.
@@ -81,6 +81,7 @@ Qed.
 
 Section WithOracle.
   Variable nonstr : string -> bool.
+  Variable hastype : string -> string -> bool.
 
   (* ---------- FormatNonStringStyle ---------- *)
 
@@ -119,8 +120,8 @@ Section WithOracle.
   Lemma style_quoted_zero : style_quoted 0%N = false. Proof. reflexivity. Qed.
 
   Lemma fmt_nonstring_idem types format h v :
-    fmt_nonstring nonstr types format (fmt_nonstring nonstr types format h v) v =
-    fmt_nonstring nonstr types format h v.
+    fmt_nonstring nonstr hastype types format (fmt_nonstring nonstr hastype types format h v) v =
+    fmt_nonstring nonstr hastype types format h v.
   Proof.
     unfold fmt_nonstring.
     destruct types as [|t [|t2 ts]]; auto.
@@ -136,6 +137,7 @@ Section WithOracle.
         reflexivity.
       + rewrite (fmt_nonstring_tail_quoted t h1 En), Q1. apply fmt_nonstring_tail_idem.
     - destruct (String.eqb t "boolean" || String.eqb t "integer" || String.eqb t "number") eqn:Eb; auto.
+      destruct (hastype v t); cbn [negb]; auto.
       set (h1 := if style_quoted (h_style h) then set_style h 0%N else h).
       assert (Q1 : style_quoted (h_style h1) = false).
       { subst h1. destruct (style_quoted (h_style h)) eqn:Q; auto. }
@@ -147,7 +149,7 @@ Section WithOracle.
   Qed.
 
   Lemma fmt_scalar_idem s h v :
-    fmt_scalar nonstr s (fmt_scalar nonstr s h v) v = fmt_scalar nonstr s h v.
+    fmt_scalar nonstr hastype s (fmt_scalar nonstr hastype s h v) v = fmt_scalar nonstr hastype s h v.
   Proof. destruct s; cbn; auto. apply fmt_nonstring_idem. Qed.
 
   (* ---------- fmt_node: equations and characterisations ---------- *)
@@ -156,9 +158,9 @@ Section WithOracle.
     Variable srt : sorter.
     Variables kind api : string.
 
-    Notation fmt := (fmt_node nonstr srt kind api).
-    Notation fpairs := (fmt_pairs nonstr srt kind api).
-    Notation felems := (fmt_elems nonstr srt kind api).
+    Notation fmt := (fmt_node nonstr hastype srt kind api).
+    Notation fpairs := (fmt_pairs nonstr hastype srt kind api).
+    Notation felems := (fmt_elems nonstr hastype srt kind api).
 
     Lemma fmt_map_eq s p h kvs :
       fmt s p (CMap h kvs) =
@@ -385,39 +387,10 @@ Qed.
 (* since /repo d64b8e2 the sort key of every element is defined *)
 Lemma seq_key_ok f e : exists k, seq_key f e = Ok k.
 Proof.
-  unfold seq_key. destruct (String.eqb f ""); [eauto|]. apply scan_field_total.
+  unfold seq_key. destruct (String.eqb f ""); [eauto|]. destruct e; eauto. apply scan_field_total.
 Qed.
 
-(* ---------- keyed_ok / wf_keys: unfolding ---------- *)
-
-Lemma keyed_ok_map kind api p h kvs :
-  keyed_ok kind api p (CMap h kvs) = true ->
-  Forall (fun kv => keyed_ok kind api p (fst kv) = true /\
-                    keyed_ok kind api (p ++ "." ++ cvalue (fst kv)) (snd kv) = true) kvs.
-Proof.
-  cbn [keyed_ok]. induction kvs as [|kv t IH]; intros H; constructor.
-  - apply andb_true_iff in H. destruct H as [H _]. apply andb_true_iff in H. exact H.
-  - apply IH. apply andb_true_iff in H. apply H.
-Qed.
-
-Lemma keyed_ok_seq kind api p h es :
-  keyed_ok kind api p (CSeq h es) = true -> Forall (fun e => keyed_ok kind api p e = true) es.
-Proof.
-  cbn [keyed_ok]. intros H. apply andb_true_iff in H. destruct H as [_ H].
-  induction es as [|e t IH]; constructor.
-  - apply andb_true_iff in H. apply H.
-  - apply IH. apply andb_true_iff in H. apply H.
-Qed.
-
-Lemma keyed_ok_elems kind api p h es f e :
-  keyed_ok kind api p (CSeq h es) = true -> sort_field kind api p = Some f -> In e es ->
-  String.eqb f "" = true \/ is_seq_node e = false.
-Proof.
-  cbn [keyed_ok]. intros H SF Hin. rewrite SF in H.
-  apply andb_true_iff in H. destruct H as [H _]. apply orb_true_iff in H.
-  destruct H as [H|H]; auto. right.
-  rewrite forallb_forall in H. specialize (H e Hin). destruct (is_seq_node e); auto; discriminate.
-Qed.
+(* ---------- wf_keys: unfolding ---------- *)
 
 Lemma nodup_strs_NoDup l : nodup_strs l = true -> NoDup l.
 Proof.
@@ -450,17 +423,18 @@ Qed.
 
 Section Instances.
   Variable nonstr : string -> bool.
+  Variable hastype : string -> string -> bool.
   Variables kind api : string.
 
   (* ---------- the formatter never panics (all nodes, any sort function) ---------- *)
   Theorem fmt_no_panic srt : forall n s p,
-    exists n', fmt_node nonstr srt kind api s p n = Ok n'.
+    exists n', fmt_node nonstr hastype srt kind api s p n = Ok n'.
   Proof.
     induction n as [h v|h v|h kvs IH|h es IH] using cnode_ind'; intros s p.
     - cbn. eauto.
     - cbn. eauto.
     - rewrite fmt_map_eq.
-      assert (HD : exists D, fmt_pairs nonstr srt kind api s p kvs = Ok D).
+      assert (HD : exists D, fmt_pairs nonstr hastype srt kind api s p kvs = Ok D).
       { induction kvs as [|kv t IHt]; cbn [fmt_pairs]; [eauto|].
         inversion IH as [|? ? [I1 I2] IH']; subst.
         destruct (I1 SNil p) as [k' Hk]. rewrite Hk. cbn [bind].
@@ -469,7 +443,7 @@ Section Instances.
         destruct (IHt IH') as [D HD]. rewrite HD. cbn [bind]. eauto. }
       destruct HD as [D HD]. rewrite HD. cbn [bind]. eauto.
     - rewrite fmt_seq_eq.
-      assert (HE : exists E, fmt_elems nonstr srt kind api (sch_elems s) p es = Ok E).
+      assert (HE : exists E, fmt_elems nonstr hastype srt kind api (sch_elems s) p es = Ok E).
       { clear - IH. induction es as [|e t IHt]; cbn [fmt_elems]; [eauto|].
         inversion IH as [|? ? I1 IH']; subst.
         destruct (I1 (sch_elems s) p) as [e' He]. rewrite He. cbn [bind].
@@ -487,11 +461,11 @@ Section Instances.
      relative order of the entries carrying the sort field ---------- *)
   Lemma map_elem_keeps_key srt s p h0 kvs e' f k :
     String.eqb f "" = false ->
-    (forall D, Forall2 (pair_rel nonstr srt kind api s p) kvs D ->
+    (forall D, Forall2 (pair_rel nonstr hastype srt kind api s p) kvs D ->
        Permutation (srt _ (lt_fst less_key) D) D /\
        filter (fun d => String.eqb (fst d) f) (srt _ (lt_fst less_key) D) =
        filter (fun d => String.eqb (fst d) f) D) ->
-    fmt_node nonstr srt kind api s p (CMap h0 kvs) = Ok e' ->
+    fmt_node nonstr hastype srt kind api s p (CMap h0 kvs) = Ok e' ->
     seq_key f (CMap h0 kvs) = Ok k -> seq_key f e' = Ok k.
   Proof.
     intros Ef Hst Hf Hk.
@@ -503,11 +477,11 @@ Section Instances.
     { eapply Forall2_Forall_r with (Q := fun _ => True); [exact HD| |].
       - rewrite Forall_forall. auto.
       - intros kv d _ [R1 [R2 R3]]. subst g. cbn. rewrite R1.
-        apply (fmt_cvalue _ _ _ _ _ _ _ _ R2). }
+        apply (fmt_cvalue _ _ _ _ _ _ _ _ _ R2). }
     assert (HM : map g D = kv_strs kvs).
     { clear - HD. induction HD as [|kv d t D' [R1 [R2 R3]] _ IH]; cbn; auto.
       rewrite IH. f_equal. subst g. cbn.
-      rewrite (fmt_cvalue _ _ _ _ _ _ _ _ R2), (fmt_cvalue _ _ _ _ _ _ _ _ R3). reflexivity. }
+      rewrite (fmt_cvalue _ _ _ _ _ _ _ _ _ R2), (fmt_cvalue _ _ _ _ _ _ _ _ _ R3). reflexivity. }
     unfold kv_strs at 1. rewrite map_map.
     change (map (fun x : string * (cnode * cnode) => (cvalue (fst (snd x)), cvalue (snd (snd x))))
                 (srt _ (lt_fst less_key) D)) with (map g (srt _ (lt_fst less_key) D)).
@@ -518,38 +492,42 @@ Section Instances.
 
   Lemma elem_keeps_key srt (cond : cnode -> Prop) :
     (forall s p h0 kvs f, cond (CMap h0 kvs) ->
-       forall D, Forall2 (pair_rel nonstr srt kind api s p) kvs D ->
+       forall D, Forall2 (pair_rel nonstr hastype srt kind api s p) kvs D ->
          Permutation (srt _ (lt_fst less_key) D) D /\
          filter (fun d => String.eqb (fst d) f) (srt _ (lt_fst less_key) D) =
          filter (fun d => String.eqb (fst d) f) D) ->
-    forall f e, (String.eqb f "" = true \/ is_seq_node e = false) -> cond e ->
+    forall f e, cond e ->
     forall s p e' k,
-      fmt_node nonstr srt kind api s p e = Ok e' -> seq_key f e = Ok k -> seq_key f e' = Ok k.
+      fmt_node nonstr hastype srt kind api s p e = Ok e' -> seq_key f e = Ok k -> seq_key f e' = Ok k.
   Proof.
-    intros Hst f e Hel Hc s p e' k Hf Hk.
+    intros Hst f e Hc s p e' k Hf Hk.
     destruct (String.eqb f "") eqn:Ef.
-    - unfold seq_key in *. rewrite Ef in *. rewrite (fmt_cvalue _ _ _ _ _ _ _ _ Hf). exact Hk.
-    - destruct Hel as [E|E]; [congruence|].
-      destruct e as [h0 v|h0 kvs|h0 es0|h0 v]; try discriminate.
+    - unfold seq_key in *. rewrite Ef in *. rewrite (fmt_cvalue _ _ _ _ _ _ _ _ _ Hf). exact Hk.
+    - destruct e as [h0 v|h0 kvs|h0 es0|h0 v].
       + cbn in Hf. inv Hf. exact Hk.
       + eapply map_elem_keeps_key; eauto.
+      + (* a nested sequence is not a keyed element: its key is "" before and after *)
+        rewrite fmt_seq_eq in Hf. apply bind_ok in Hf. destruct Hf as [es' [_ Hf]].
+        unfold seq_key in *. rewrite Ef in *.
+        destruct (sort_field kind api p).
+        * apply bind_ok in Hf. destruct Hf as [ks [_ Hf]]. inv Hf. exact Hk.
+        * inv Hf. exact Hk.
       + cbn in Hf. inv Hf. exact Hk.
   Qed.
 
-  (* ---------- idempotence with the stable sort Go uses up to 12 elements ---------- *)
+  (* ---------- idempotence with the stable sort (sort.Stable): every node ---------- *)
   Theorem fmt_idem_isort : forall n s p n',
-    keyed_ok kind api p n = true ->
-    fmt_node nonstr isort kind api s p n = Ok n' -> fmt_node nonstr isort kind api s p n' = Ok n'.
+    fmt_node nonstr hastype isort kind api s p n = Ok n' -> fmt_node nonstr hastype isort kind api s p n' = Ok n'.
   Proof.
-    apply (fmt_idem_gen nonstr isort kind api isort_S1 (keyed_ok kind api)).
-    - apply keyed_ok_map.
-    - apply keyed_ok_seq.
-    - intros p h es f Hok SF e Hin s e' k.
+    intros n s p n'.
+    apply (fmt_idem_gen nonstr hastype isort kind api isort_S1 (fun _ _ => true)); auto.
+    - intros p0 h kvs _. rewrite Forall_forall. auto.
+    - intros p0 h es _. rewrite Forall_forall. auto.
+    - intros p0 h es f _ SF e Hin s0 e' k.
       apply (elem_keeps_key isort (fun _ => True)); auto.
-      + intros s0 p0 h0 kvs f0 _ D _. unfold isort. split.
-        * apply isort_perm.
-        * apply (isort_filter less_key less_key_strict_total).
-      + eapply keyed_ok_elems; eauto.
+      intros s1 p1 h0 kvs f0 _ D _. unfold isort. split.
+      + apply isort_perm.
+      + apply (isort_filter less_key less_key_strict_total).
   Qed.
 
   (* ---------- idempotence with ANY sort meeting (S1), for documents with unique keys ---------- *)
@@ -587,22 +565,14 @@ Section Instances.
     - apply Permutation_sym, Permutation_length_1_inv in P. exact P.
   Qed.
 
-  Definition ok_wf (p : string) (n : cnode) : bool := keyed_ok kind api p n && wf_keys n.
-
   Theorem fmt_idem_S1 srt : S1 srt -> forall n s p n',
-    keyed_ok kind api p n = true -> wf_keys n = true ->
-    fmt_node nonstr srt kind api s p n = Ok n' -> fmt_node nonstr srt kind api s p n' = Ok n'.
+    wf_keys n = true ->
+    fmt_node nonstr hastype srt kind api s p n = Ok n' -> fmt_node nonstr hastype srt kind api s p n' = Ok n'.
   Proof.
-    intros HS1 n s p n' K W. apply (fmt_idem_gen nonstr srt kind api HS1 ok_wf).
-    - intros p0 h kvs H. unfold ok_wf in *. apply andb_true_iff in H. destruct H as [H1 H2].
-      apply keyed_ok_map in H1. apply wf_keys_map in H2. destruct H2 as [_ H2].
-      rewrite Forall_forall in *. intros kv Hin. destruct (H1 kv Hin), (H2 kv Hin).
-      split; apply andb_true_iff; auto.
-    - intros p0 h es H. unfold ok_wf in *. apply andb_true_iff in H. destruct H as [H1 H2].
-      apply keyed_ok_seq in H1. apply wf_keys_seq in H2.
-      rewrite Forall_forall in *. intros e Hin. apply andb_true_iff; auto.
+    intros HS1 n s p n' W. apply (fmt_idem_gen nonstr hastype srt kind api HS1 (fun _ n => wf_keys n)); auto.
+    - intros p0 h kvs H. apply wf_keys_map in H. destruct H as [_ H]. exact H.
+    - intros p0 h es H. apply wf_keys_seq in H. exact H.
     - intros p0 h es f H SF e Hin s0 e' k.
-      unfold ok_wf in H. apply andb_true_iff in H. destruct H as [H1 H2].
       apply (elem_keeps_key srt (fun e => wf_keys e = true)).
       + intros s1 p1 h0 kvs f0 Wk D HD.
         destruct (HS1 _ less_key less_key_strict_total D) as [HP _]. split; [exact HP|].
@@ -610,10 +580,8 @@ Section Instances.
         apply wf_keys_map in Wk. destruct Wk as [Nd _].
         assert (map fst D = key_values kvs).
         { clear - HD. unfold key_values. induction HD as [|kv d t D' [R1 _] _ IH]; cbn; congruence. }
-        rewrite H. exact Nd.
-      + eapply keyed_ok_elems; eauto.
-      + apply wf_keys_seq in H2. rewrite Forall_forall in H2. auto.
-    - unfold ok_wf. rewrite K, W. reflexivity.
+        rewrite H0. exact Nd.
+      + apply wf_keys_seq in H. rewrite Forall_forall in H. auto.
   Qed.
 End Instances.
 
@@ -683,16 +651,17 @@ Section Shuffle.
       shuffled p (CSeq h es) (CSeq h es').
 
   Variable nonstr : string -> bool.
+  Variable hastype : string -> string -> bool.
   Variable srt : sorter.
   Hypothesis HS1 : S1 srt.
   Variable Q : sch -> Prop.               (* the schemas considered *)
   Hypothesis Q_nil : Q SNil.
   Hypothesis Q_field : forall s name, Q s -> Q (sch_field s name).
   Hypothesis Q_elems : forall s, Q s -> Q (sch_elems s).
-  Hypothesis Rs_fmt : forall s h v, Q s -> Rs h (fmt_scalar nonstr s h v).
+  Hypothesis Rs_fmt : forall s h v, Q s -> Rs h (fmt_scalar nonstr hastype s h v).
 
   Theorem fmt_shuffled : forall n s p n',
-    Q s -> fmt_node nonstr srt kind api s p n = Ok n' -> shuffled p n n'.
+    Q s -> fmt_node nonstr hastype srt kind api s p n = Ok n' -> shuffled p n n'.
   Proof.
     induction n as [h v|h v|h kvs IH|h es IH] using cnode_ind'; intros s p n' HQ H.
     - cbn in H. inv H. constructor. auto.
@@ -730,7 +699,7 @@ Definition hdr_sim (h h' : hdr) : Prop :=
 Lemma hdr_sim_refl h : hdr_sim h h.
 Proof. repeat split. Qed.
 
-Lemma fmt_scalar_sim nonstr s h v : hdr_sim h (fmt_scalar nonstr s h v).
+Lemma fmt_scalar_sim nonstr hastype s h v : hdr_sim h (fmt_scalar nonstr hastype s h v).
 Proof.
   destruct s as [|types format fs el]; cbn; [apply hdr_sim_refl|].
   unfold fmt_nonstring. destruct types as [|t [|t2 ts]]; try apply hdr_sim_refl.
@@ -743,37 +712,38 @@ Proof.
   - apply T. destruct (style_quoted (h_style h)); unfold hdr_sim; cbn; auto.
   - destruct (String.eqb t "boolean" || String.eqb t "integer" || String.eqb t "number");
       [|apply hdr_sim_refl].
+    destruct (negb (hastype v t)); [apply hdr_sim_refl|].
     apply T. destruct (style_quoted (h_style h)); unfold hdr_sim; cbn; auto.
 Qed.
 
-Theorem fmt_value_preserved_noschema nonstr srt kind api :
+Theorem fmt_value_preserved_noschema nonstr hastype srt kind api :
   S1 srt -> forall n p n',
-  fmt_node nonstr srt kind api SNil p n = Ok n' -> shuffled kind api eq p n n'.
+  fmt_node nonstr hastype srt kind api SNil p n = Ok n' -> shuffled kind api eq p n n'.
 Proof.
   intros HS1 n p n'.
-  apply (fmt_shuffled kind api eq nonstr srt HS1 (fun s => s = SNil)); auto.
+  apply (fmt_shuffled kind api eq nonstr hastype srt HS1 (fun s => s = SNil)); auto.
   - intros s name ->. reflexivity.
   - intros s ->. reflexivity.
   - intros s h v ->. reflexivity.
 Qed.
 
-Theorem fmt_value_preserved nonstr srt kind api :
+Theorem fmt_value_preserved nonstr hastype srt kind api :
   S1 srt -> forall n s p n',
-  fmt_node nonstr srt kind api s p n = Ok n' -> shuffled kind api hdr_sim p n n'.
+  fmt_node nonstr hastype srt kind api s p n = Ok n' -> shuffled kind api hdr_sim p n n'.
 Proof.
   intros HS1 n s p n'.
-  apply (fmt_shuffled kind api hdr_sim nonstr srt HS1 (fun _ => True)); auto.
+  apply (fmt_shuffled kind api hdr_sim nonstr hastype srt HS1 (fun _ => True)); auto.
   intros. apply fmt_scalar_sim.
 Qed.
 
 (* ---------- comments ---------- *)
 
-Theorem fmt_comments nonstr srt kind api : S1 srt -> forall n s p n',
-  fmt_node nonstr srt kind api s p n = Ok n' -> Permutation (comments n') (comments n).
+Theorem fmt_comments nonstr hastype srt kind api : S1 srt -> forall n s p n',
+  fmt_node nonstr hastype srt kind api s p n = Ok n' -> Permutation (comments n') (comments n).
 Proof.
   intros HS1.
   induction n as [h v|h v|h kvs IH|h es IH] using cnode_ind'; intros s p n' H.
-  - cbn in H. inv H. cbn. destruct (fmt_scalar_sim nonstr s h v) as [A [B [C _]]].
+  - cbn in H. inv H. cbn. destruct (fmt_scalar_sim nonstr hastype s h v) as [A [B [C _]]].
     unfold hdr_comments. rewrite <- A, <- B, <- C. apply Permutation_refl.
   - cbn in H. inv H. apply Permutation_refl.
   - rewrite fmt_map_eq in H. apply bind_ok in H. destruct H as [D [HD H]]. inv H.
@@ -852,36 +822,41 @@ Definition wit_panic : cnode := wit_deployment (wq [wq [ws "name"]; wq [ws "name
 Definition wit_dup_sortfield : cnode :=
   wit_deployment (wq [wm [("name", ws "c"); ("zz", ws "1"); ("name", ws "a")]; wm [("name", ws "b")]]).
 
-Theorem fmt_idem_refuted : forall nonstr, exists n n1 n2,
-  wf_keys n = true /\
-  filter_doc nonstr isort SNil n = Ok n1 /\ filter_doc nonstr isort SNil n1 = Ok n2 /\ n1 <> n2.
+(* regression (repair "keyed elements are mappings"): the document whose nested list made formatting
+   unstable is now formatted to a fixed point in one pass *)
+Example wit_nested_seq_now_idempotent : forall nonstr hastype, exists n1,
+  filter_doc nonstr hastype isort SNil wit_nested_seq = Ok n1 /\ filter_doc nonstr hastype isort SNil n1 = Ok n1 /\
+  n1 <> wit_nested_seq.
 Proof.
-  intros nonstr. exists wit_nested_seq. eexists. eexists.
-  split; [vm_compute; reflexivity|].
-  split; [vm_compute; reflexivity|].
-  split; [vm_compute; reflexivity|].
+  intros nonstr hastype. eexists. split; [vm_compute; reflexivity|]. split; [vm_compute; reflexivity|].
   apply cnode_neq. vm_compute. reflexivity.
 Qed.
 
 (* regression for /repo d64b8e2: the document that used to panic (an odd-length sequence ending in the
    sort field inside the keyed list) is formatted, and formatting is stable on it *)
-Example wit_panic_now_ok : forall nonstr, exists n1,
-  filter_doc nonstr isort SNil wit_panic = Ok n1 /\ filter_doc nonstr isort SNil n1 = Ok n1.
+Example wit_panic_now_ok : forall nonstr hastype, exists n1,
+  filter_doc nonstr hastype isort SNil wit_panic = Ok n1 /\ filter_doc nonstr hastype isort SNil n1 = Ok n1.
 Proof.
-  intros nonstr. eexists. split; vm_compute; reflexivity.
+  intros nonstr hastype. eexists. split; vm_compute; reflexivity.
 Qed.
 
-(* with a sort that meets (S1) but is not stable, duplicate sort fields break idempotence *)
-Theorem fmt_idem_S1_refuted : forall nonstr, exists srt, S1 srt /\ exists n n1 n2,
-  keyed_ok "Deployment" "apps/v1" "" n = true /\
-  filter_doc nonstr srt SNil n = Ok n1 /\ filter_doc nonstr srt SNil n1 = Ok n2 /\ n1 <> n2.
+(* regression (repair "sort.Stable"): why the sort has to be stable.  With a sort that meets (S1) but is
+   not stable — sort.Sort beyond 12 elements — a duplicate sort field breaks idempotence ... *)
+Example unstable_sort_breaks_idempotence : forall nonstr hastype, exists srt, S1 srt /\ exists n1 n2,
+  filter_doc nonstr hastype srt SNil wit_dup_sortfield = Ok n1 /\ filter_doc nonstr hastype srt SNil n1 = Ok n2 /\ n1 <> n2.
 Proof.
-  intros nonstr. exists rsort. split; [apply rsort_S1|].
-  exists wit_dup_sortfield. eexists. eexists.
-  split; [vm_compute; reflexivity|].
+  intros nonstr hastype. exists rsort. split; [apply rsort_S1|].
+  eexists. eexists.
   split; [vm_compute; reflexivity|].
   split; [vm_compute; reflexivity|].
   apply cnode_neq. vm_compute. reflexivity.
+Qed.
+
+(* ... and with the stable sort the same document is a fixed point after one pass *)
+Example wit_dup_sortfield_now_idempotent : forall nonstr hastype, exists n1,
+  filter_doc nonstr hastype isort SNil wit_dup_sortfield = Ok n1 /\ filter_doc nonstr hastype isort SNil n1 = Ok n1.
+Proof.
+  intros nonstr hastype. eexists. split; vm_compute; reflexivity.
 Qed.
 
 (* the hypotheses of the positive theorems are met by a document that really gets reordered *)
@@ -891,11 +866,11 @@ Definition wit_ordinary : cnode :=
           wq [wm [("name", ws "b"); ("image", ws "x")]; wm [("image", ws "y"); ("name", ws "a")]])])])]);
       ("apiVersion", ws "apps/v1"); ("alpha", ws "2")].
 
-Example wit_ordinary_nonvacuous : forall nonstr,
-  keyed_ok "Deployment" "apps/v1" "" wit_ordinary = true /\ wf_keys wit_ordinary = true /\
-  exists n1, filter_doc nonstr isort SNil wit_ordinary = Ok n1 /\ n1 <> wit_ordinary.
+Example wit_ordinary_nonvacuous : forall nonstr hastype,
+  wf_keys wit_ordinary = true /\
+  exists n1, filter_doc nonstr hastype isort SNil wit_ordinary = Ok n1 /\ n1 <> wit_ordinary.
 Proof.
-  intros nonstr. split; [vm_compute; reflexivity|]. split; [vm_compute; reflexivity|].
+  intros nonstr hastype. split; [vm_compute; reflexivity|].
   eexists. split; [vm_compute; reflexivity|]. apply cnode_neq. vm_compute. reflexivity.
 Qed.
 
@@ -927,100 +902,138 @@ Qed.
 
 (* ---------- FormatNonStringStyle ---------- *)
 
-Theorem schema_quote nonstr (h : hdr) (v : string) :
-  (* the scalar text is never touched; only Style and Tag may change (see fmt_scalar_sim) *)
-  (forall types format, nonstr v = false -> fmt_nonstring nonstr types format h v = h) /\
-  (* string-typed position, text that YAML 1.1 would read as a non-string: quoted afterwards *)
-  (forall format, nonstr v = true -> String.eqb format "int-or-string" = false ->
-     String.eqb (h_tag h) node_tag_null = false ->
-     let h' := fmt_nonstring nonstr ["string"] format h v in
-     style_quoted (h_style h') = true /\ h_tag h' = "!!str") /\
-  (* boolean / integer / number position: never left quoted, tagged with the schema type *)
-  (forall t format tg, nonstr v = true ->
-     (t = "boolean" \/ t = "integer" \/ t = "number") -> assoc_str t type_to_tag = Some tg ->
-     String.eqb (h_tag h) node_tag_null = false ->
-     let h' := fmt_nonstring nonstr [t] format h v in
-     style_quoted (h_style h') = false /\ h_tag h' = tg) /\
+Section SchemaQuote.
+  Variable nonstr : string -> bool.
+  Variable hastype : string -> string -> bool.
+  Variables (h : hdr) (v : string).
+
+  Definition is_num_type (t : string) : Prop := t = "boolean" \/ t = "integer" \/ t = "number".
+
+  Lemma num_type_eqs t : is_num_type t ->
+    String.eqb t "string" = false /\
+    (String.eqb t "boolean" || String.eqb t "integer" || String.eqb t "number") = true.
+  Proof. intros [->|[->| ->]]; split; reflexivity. Qed.
+
+  (* text that YAML 1.1 reads as a string is never touched *)
+  Lemma sq_untouched types format : nonstr v = false -> fmt_nonstring nonstr hastype types format h v = h.
+  Proof. intros N. unfold fmt_nonstring. destruct types as [|t [|t2 ts]]; auto. rewrite N. reflexivity. Qed.
+
+  (* string-typed position, text that YAML 1.1 would read as a non-string: quoted and tagged !!str *)
+  Lemma sq_string format :
+    nonstr v = true -> String.eqb format "int-or-string" = false ->
+    String.eqb (h_tag h) node_tag_null = false ->
+    style_quoted (h_style (fmt_nonstring nonstr hastype ["string"] format h v)) = true /\
+    h_tag (fmt_nonstring nonstr hastype ["string"] format h v) = "!!str".
+  Proof.
+    intros N F T. unfold fmt_nonstring. rewrite N, F. cbn [negb andb String.eqb Ascii.eqb Bool.eqb].
+    set (h1 := if style_quoted (h_style h) then h else set_style h style_double).
+    assert (T1 : String.eqb (h_tag h1) node_tag_null = false) by (subst h1; destruct (style_quoted (h_style h)); auto).
+    split.
+    - rewrite (fmt_nonstring_tail_quoted _ _ T1). subst h1. destruct (style_quoted (h_style h)) eqn:Q; auto.
+    - unfold fmt_nonstring_tail. rewrite T1. vm_compute assoc_str. reflexivity.
+  Qed.
+
+  (* boolean / integer / number position and a value OF THAT TYPE: never left quoted, tagged with the type *)
+  Lemma sq_number t format tg :
+    nonstr v = true -> is_num_type t -> hastype v t = true -> assoc_str t type_to_tag = Some tg ->
+    String.eqb (h_tag h) node_tag_null = false ->
+    style_quoted (h_style (fmt_nonstring nonstr hastype [t] format h v)) = false /\
+    h_tag (fmt_nonstring nonstr hastype [t] format h v) = tg.
+  Proof.
+    intros N Ht HT A T. destruct (num_type_eqs t Ht) as [E E2].
+    unfold fmt_nonstring. rewrite N, E, E2, HT. cbn [negb andb].
+    set (h1 := if style_quoted (h_style h) then set_style h 0%N else h).
+    assert (T1 : String.eqb (h_tag h1) node_tag_null = false) by (subst h1; destruct (style_quoted (h_style h)); auto).
+    split.
+    - rewrite (fmt_nonstring_tail_quoted _ _ T1). subst h1. destruct (style_quoted (h_style h)) eqn:Q; auto.
+    - unfold fmt_nonstring_tail. rewrite T1, A. reflexivity.
+  Qed.
+
+  (* ... and a value that is NOT of the schema's type is left exactly as written (repair "does not tag
+     a scalar with a schema type its value does not have"): `replicas: true` stays `true` *)
+  Lemma sq_mistyped t format :
+    is_num_type t -> hastype v t = false -> fmt_nonstring nonstr hastype [t] format h v = h.
+  Proof.
+    intros Ht HT. destruct (num_type_eqs t Ht) as [E E2].
+    unfold fmt_nonstring. destruct (nonstr v); cbn [negb]; auto. rewrite E, E2, HT. reflexivity.
+  Qed.
+
   (* a null stays an unquoted null *)
-  (forall t format, nonstr v = true -> String.eqb (h_tag h) node_tag_null = true ->
-     (t = "string" /\ String.eqb format "int-or-string" = false \/ t = "boolean" \/ t = "integer" \/ t = "number") ->
-     let h' := fmt_nonstring nonstr [t] format h v in
-     h_style h' = 0%N /\ h_tag h' = h_tag h) /\
+  Lemma sq_null t format :
+    nonstr v = true -> String.eqb (h_tag h) node_tag_null = true ->
+    (t = "string" /\ String.eqb format "int-or-string" = false \/ is_num_type t /\ hastype v t = true) ->
+    h_style (fmt_nonstring nonstr hastype [t] format h v) = 0%N /\
+    h_tag (fmt_nonstring nonstr hastype [t] format h v) = h_tag h.
+  Proof.
+    intros N T [[-> F]|[Ht HT]]; unfold fmt_nonstring; rewrite N; cbn [negb].
+    - rewrite F. cbn [negb andb String.eqb Ascii.eqb Bool.eqb].
+      rewrite fmt_nonstring_tail_null by (destruct (style_quoted (h_style h)); auto).
+      destruct (style_quoted (h_style h)); split; reflexivity.
+    - destruct (num_type_eqs t Ht) as [E E2]. rewrite E, E2, HT. cbn [negb andb].
+      rewrite fmt_nonstring_tail_null by (destruct (style_quoted (h_style h)); auto).
+      destruct (style_quoted (h_style h)); split; reflexivity.
+  Qed.
+
   (* a string stays a string at a string-typed position *)
-  (forall format, style_quoted (h_style h) = true \/ nonstr v = false ->
-     String.eqb (h_tag h) node_tag_null = false ->
-     let h' := fmt_nonstring nonstr ["string"] format h v in
-     style_quoted (h_style h') = true \/ nonstr v = false).
-Proof.
-  repeat split.
-  - intros types format N. unfold fmt_nonstring. destruct types as [|t [|t2 ts]]; auto. rewrite N. reflexivity.
-  - unfold fmt_nonstring. rewrite H, H0. cbn [negb andb String.eqb Ascii.eqb Bool.eqb].
-    set (h1 := if style_quoted (h_style h) then h else set_style h style_double).
-    assert (T1 : String.eqb (h_tag h1) node_tag_null = false) by (subst h1; destruct (style_quoted (h_style h)); auto).
-    rewrite (fmt_nonstring_tail_quoted _ _ T1). subst h1. destruct (style_quoted (h_style h)) eqn:Q; auto.
-  - unfold fmt_nonstring. rewrite H, H0. cbn [negb andb String.eqb Ascii.eqb Bool.eqb].
-    set (h1 := if style_quoted (h_style h) then h else set_style h style_double).
-    assert (T1 : String.eqb (h_tag h1) node_tag_null = false) by (subst h1; destruct (style_quoted (h_style h)); auto).
-    unfold fmt_nonstring_tail. rewrite T1. vm_compute assoc_str. reflexivity.
-  - unfold fmt_nonstring. rewrite H.
-    assert (E : String.eqb t "string" = false) by (destruct H0 as [->|[->| ->]]; reflexivity).
-    assert (E2 : String.eqb t "boolean" || String.eqb t "integer" || String.eqb t "number" = true)
-      by (destruct H0 as [->|[->| ->]]; reflexivity).
-    rewrite E, E2. cbn [negb andb].
-    set (h1 := if style_quoted (h_style h) then set_style h 0%N else h).
-    assert (T1 : String.eqb (h_tag h1) node_tag_null = false) by (subst h1; destruct (style_quoted (h_style h)); auto).
-    rewrite (fmt_nonstring_tail_quoted _ _ T1). subst h1. destruct (style_quoted (h_style h)) eqn:Q; auto.
-  - unfold fmt_nonstring. rewrite H.
-    assert (E : String.eqb t "string" = false) by (destruct H0 as [->|[->| ->]]; reflexivity).
-    assert (E2 : String.eqb t "boolean" || String.eqb t "integer" || String.eqb t "number" = true)
-      by (destruct H0 as [->|[->| ->]]; reflexivity).
-    rewrite E, E2. cbn [negb andb].
-    set (h1 := if style_quoted (h_style h) then set_style h 0%N else h).
-    assert (T1 : String.eqb (h_tag h1) node_tag_null = false) by (subst h1; destruct (style_quoted (h_style h)); auto).
-    unfold fmt_nonstring_tail. rewrite T1, H1. reflexivity.
-  - unfold fmt_nonstring. rewrite H. cbn [negb].
-    destruct H1 as [[-> F]|H1].
-    + rewrite F. cbn [negb andb String.eqb Ascii.eqb Bool.eqb].
-      rewrite fmt_nonstring_tail_null; [reflexivity|]. destruct (style_quoted (h_style h)); auto.
-    + assert (E : String.eqb t "string" = false) by (destruct H1 as [->|[->| ->]]; reflexivity).
-      assert (E2 : String.eqb t "boolean" || String.eqb t "integer" || String.eqb t "number" = true)
-        by (destruct H1 as [->|[->| ->]]; reflexivity).
-      rewrite E, E2. cbn [negb andb].
-      rewrite fmt_nonstring_tail_null; [reflexivity|]. destruct (style_quoted (h_style h)); auto.
-  - unfold fmt_nonstring. rewrite H. cbn [negb].
-    destruct H1 as [[-> F]|H1].
-    + rewrite F. cbn [negb andb String.eqb Ascii.eqb Bool.eqb].
-      rewrite fmt_nonstring_tail_null; [|destruct (style_quoted (h_style h)); auto].
-      destruct (style_quoted (h_style h)); reflexivity.
-    + assert (E : String.eqb t "string" = false) by (destruct H1 as [->|[->| ->]]; reflexivity).
-      assert (E2 : String.eqb t "boolean" || String.eqb t "integer" || String.eqb t "number" = true)
-        by (destruct H1 as [->|[->| ->]]; reflexivity).
-      rewrite E, E2. cbn [negb andb].
-      rewrite fmt_nonstring_tail_null; [|destruct (style_quoted (h_style h)); auto].
-      destruct (style_quoted (h_style h)); reflexivity.
-  - intros format [Q|N] T.
-    + left. unfold fmt_nonstring. destruct (nonstr v); cbn [negb]; auto.
-      destruct (String.eqb format "int-or-string"); cbn [negb andb String.eqb Ascii.eqb Bool.eqb orb]; auto.
-      rewrite Q. rewrite (fmt_nonstring_tail_quoted _ _ T). exact Q.
-    + right. exact N.
-Qed.
+  Lemma sq_string_stays format :
+    style_quoted (h_style h) = true \/ nonstr v = false ->
+    String.eqb (h_tag h) node_tag_null = false ->
+    style_quoted (h_style (fmt_nonstring nonstr hastype ["string"] format h v)) = true \/ nonstr v = false.
+  Proof.
+    intros [Q|N] T; [left|right; exact N].
+    unfold fmt_nonstring. destruct (nonstr v); cbn [negb]; auto.
+    destruct (String.eqb format "int-or-string"); cbn [negb andb String.eqb Ascii.eqb Bool.eqb orb]; auto.
+    rewrite Q. rewrite (fmt_nonstring_tail_quoted _ _ T). exact Q.
+  Qed.
+
+  (* the tag afterwards is the tag before, or the tag of a type the value really has *)
+  Lemma sq_tag_sound types format :
+    h_tag (fmt_nonstring nonstr hastype types format h v) = h_tag h \/
+    (exists t, types = [t] /\ assoc_str t type_to_tag = Some (h_tag (fmt_nonstring nonstr hastype types format h v)) /\
+               (t = "string" \/ hastype v t = true)).
+  Proof.
+    unfold fmt_nonstring. destruct types as [|t [|t2 ts]]; auto.
+    destruct (negb (nonstr v)); auto.
+    assert (TT : forall h0, h_tag h0 = h_tag h ->
+              h_tag (fmt_nonstring_tail t h0) = h_tag h \/ assoc_str t type_to_tag = Some (h_tag (fmt_nonstring_tail t h0))).
+    { intros h0 E0. unfold fmt_nonstring_tail. destruct (String.eqb (h_tag h0) node_tag_null); [left; exact E0|].
+      destruct (assoc_str t type_to_tag) eqn:A; [right; reflexivity|left; exact E0]. }
+    destruct (String.eqb t "string" && negb (String.eqb format "int-or-string")) eqn:Es.
+    - apply andb_true_iff in Es. destruct Es as [Es _]. apply String.eqb_eq in Es.
+      destruct (TT (if style_quoted (h_style h) then h else set_style h style_double)) as [L|R];
+        [destruct (style_quoted (h_style h)); reflexivity|left; exact L|].
+      right. exists t. auto.
+    - destruct (String.eqb t "boolean" || String.eqb t "integer" || String.eqb t "number"); auto.
+      destruct (hastype v t) eqn:HT; cbn [negb]; auto.
+      destruct (TT (if style_quoted (h_style h) then set_style h 0%N else h)) as [L|R];
+        [destruct (style_quoted (h_style h)); reflexivity|left; exact L|].
+      right. exists t. auto.
+  Qed.
+End SchemaQuote.
+
+(* regression (repair of schema/mismatched-scalar-retagged): `true` at an integer-typed position keeps
+   its tag and style — before the repair it was tagged !!int *)
+Example wit_mistyped_scalar_untouched :
+  let h := mkHdr "" "" "" "" "!!bool" 0 in
+  fmt_nonstring (fun _ => true) (fun v t => String.eqb v "true" && String.eqb t "boolean") ["integer"] "" h "true" = h.
+Proof. vm_compute. reflexivity. Qed.
 
 (* ---------- the opt-out annotation, and documents without type information ---------- *)
 
-Theorem filter_doc_optout nonstr srt s n v :
+Theorem filter_doc_optout nonstr hastype srt s n v :
   lookup_fields ["metadata"; "annotations"; fmt_annotation] n = Ok (Some v) ->
   cvalue v = fmt_strategy_none ->
-  filter_doc nonstr srt s n = Ok n.
+  filter_doc nonstr hastype srt s n = Ok n.
 Proof.
   intros L V. unfold filter_doc, get_strategy. rewrite L. cbn [bind]. rewrite V.
   vm_compute (String.eqb fmt_strategy_none fmt_strategy_standard).
   rewrite String.eqb_refl. reflexivity.
 Qed.
 
-Theorem filter_doc_untyped nonstr srt s n :
+Theorem filter_doc_untyped nonstr hastype srt s n :
   get_strategy n = Ok StStandard ->
   get_field "kind" n = Ok None \/ (exists k, get_field "kind" n = Ok (Some k)) /\ get_field "apiVersion" n = Ok None ->
-  filter_doc nonstr srt s n = Ok n.
+  filter_doc nonstr hastype srt s n = Ok n.
 Proof.
   intros G [K|[[k K] A]]; unfold filter_doc; rewrite G; cbn [bind]; rewrite K; cbn [bind]; auto.
   rewrite A. reflexivity.
@@ -1073,8 +1086,6 @@ Proof.
       * unfold kv_strs. rewrite map_map. cbn.
         eapply perm_NoDup_map; [exact P|exact Nd].
       * unfold kv_strs. apply Permutation_map. exact P.
-    + unfold seq_key. rewrite Ef. cbn [content]. apply scan_field_cvalue.
-      clear - F. induction F; constructor; auto. apply mperm_cvalue. auto.
 Qed.
 
 Lemma Forall2_perm_l {A B} (R : A -> B -> Prop) l1 l1' l2 :
@@ -1104,13 +1115,14 @@ Qed.
 
 Section Canonical.
   Variable nonstr : string -> bool.
+  Variable hastype : string -> string -> bool.
   Variable srt : sorter.
   Variables kind api : string.
   Hypothesis HS1 : S1 srt.
 
   Theorem fmt_canonical : forall n1 n2 s p a b,
     mperm n1 n2 -> wf_keys n1 = true ->
-    fmt_node nonstr srt kind api s p n1 = Ok a -> fmt_node nonstr srt kind api s p n2 = Ok b -> a = b.
+    fmt_node nonstr hastype srt kind api s p n1 = Ok a -> fmt_node nonstr hastype srt kind api s p n2 = Ok b -> a = b.
   Proof.
     induction n1 as [h v|h v|h kvs IH|h es IH] using cnode_ind'; intros n2 s p a b M W Ha Hb.
     - inv M. congruence.
@@ -1124,11 +1136,11 @@ Section Canonical.
       assert (IHm : Forall (fun kv =>
                  (wf_keys (fst kv) = true /\ wf_keys (snd kv) = true) /\
                  (forall n2 s p a b, mperm (fst kv) n2 -> wf_keys (fst kv) = true ->
-                    fmt_node nonstr srt kind api s p (fst kv) = Ok a ->
-                    fmt_node nonstr srt kind api s p n2 = Ok b -> a = b) /\
+                    fmt_node nonstr hastype srt kind api s p (fst kv) = Ok a ->
+                    fmt_node nonstr hastype srt kind api s p n2 = Ok b -> a = b) /\
                  (forall n2 s p a b, mperm (snd kv) n2 -> wf_keys (snd kv) = true ->
-                    fmt_node nonstr srt kind api s p (snd kv) = Ok a ->
-                    fmt_node nonstr srt kind api s p n2 = Ok b -> a = b)) mid).
+                    fmt_node nonstr hastype srt kind api s p (snd kv) = Ok a ->
+                    fmt_node nonstr hastype srt kind api s p n2 = Ok b -> a = b)) mid).
       { eapply Forall_perm; [exact H1|]. rewrite Forall_forall in *. intros kv Hin. split; [auto|apply (IH kv Hin)]. }
       assert (EQ : Dm = D2).
       { clear - FDm HD2 H3 IHm. revert Dm D2 FDm HD2 IHm.
@@ -1196,12 +1208,6 @@ Proof. vm_compute. reflexivity. Qed.
 
 (* ---------- the whole filter: FormatFilter.Filter on a document and on a stream ---------- *)
 
-Definition doc_keyed_ok (n : cnode) : bool :=
-  match get_field "kind" n, get_field "apiVersion" n with
-  | Ok (Some k), Ok (Some a) => keyed_ok (cvalue k) (cvalue a) "" n
-  | _, _ => true
-  end.
-
 Lemma find_pair_filter name kvs :
   find_pair name kvs =
   match filter (fun kv : cnode * cnode => String.eqb (cvalue (fst kv)) name) kvs with
@@ -1215,23 +1221,24 @@ Qed.
 
 Section Doc.
   Variable nonstr : string -> bool.
+  Variable hastype : string -> string -> bool.
   Variable srt : sorter.
   Variables kind api : string.
 
   (* [x'] is the formatted [x] (at some schema and path) *)
   Definition fmt_of (x x' : cnode) : Prop :=
-    exists s p, fmt_node nonstr srt kind api s p x = Ok x'.
+    exists s p, fmt_node nonstr hastype srt kind api s p x = Ok x'.
 
   (* the sort keeps the relative order of the entries of each key (stable sort, or unique keys) *)
   Definition keeps_order (n : cnode) : Prop :=
     forall h kvs, n = CMap h kvs -> forall s p D name,
-      Forall2 (pair_rel nonstr srt kind api s p) kvs D ->
+      Forall2 (pair_rel nonstr hastype srt kind api s p) kvs D ->
       Permutation (srt _ (lt_fst less_key) D) D /\
       filter (fun d => String.eqb (fst d) name) (srt _ (lt_fst less_key) D) =
       filter (fun d => String.eqb (fst d) name) D.
 
   Lemma fmt_null_tag n s p n' :
-    fmt_node nonstr srt kind api s p n = Ok n' -> is_null_tag n' = is_null_tag n.
+    fmt_node nonstr hastype srt kind api s p n = Ok n' -> is_null_tag n' = is_null_tag n.
   Proof.
     destruct n as [h v|h kvs|h es|h v]; intros H.
     - cbn in H. inv H. unfold is_null_tag. cbn [chdr].
@@ -1241,6 +1248,7 @@ Section Doc.
       destruct (String.eqb t "string" && negb (String.eqb format "int-or-string")).
       + rewrite fmt_nonstring_tail_tag_null. destruct (style_quoted (h_style h)); reflexivity.
       + destruct (String.eqb t "boolean" || String.eqb t "integer" || String.eqb t "number"); auto.
+        destruct (negb (hastype v t)); auto.
         rewrite fmt_nonstring_tail_tag_null. destruct (style_quoted (h_style h)); reflexivity.
     - rewrite fmt_map_eq in H. apply bind_ok in H. destruct H as [d [_ H]]. inv H. reflexivity.
     - rewrite fmt_seq_eq in H. apply bind_ok in H. destruct H as [es' [_ H]].
@@ -1259,7 +1267,7 @@ Section Doc.
 
   Lemma get_field_fmt name n s p n' :
     keeps_order n ->
-    fmt_node nonstr srt kind api s p n = Ok n' ->
+    fmt_node nonstr hastype srt kind api s p n = Ok n' ->
     match get_field name n with
     | Ok (Some x) => exists x', get_field name n' = Ok (Some x') /\ fmt_of x x'
     | r => get_field name n' = r
@@ -1276,7 +1284,7 @@ Section Doc.
       assert (HG : Forall (fun d : string * (cnode * cnode) => cvalue (fst (snd d)) = fst d) D).
       { eapply Forall2_Forall_r with (Q := fun _ => True); [exact HD| |].
         - rewrite Forall_forall. auto.
-        - intros kv d _ [R1 [R2 R3]]. rewrite R1. apply (fmt_cvalue _ _ _ _ _ _ _ _ R2). }
+        - intros kv d _ [R1 [R2 R3]]. rewrite R1. apply (fmt_cvalue _ _ _ _ _ _ _ _ _ R2). }
       assert (E1 : filter (fun kv : cnode * cnode => String.eqb (cvalue (fst kv)) name) (map snd S) =
                    map snd (filter (fun d => String.eqb (fst d) name) S)).
       { assert (HGS : Forall (fun d : string * (cnode * cnode) => cvalue (fst (snd d)) = fst d) S)
@@ -1284,7 +1292,7 @@ Section Doc.
         clear - HGS. induction HGS as [|d t Hd _ IH]; cbn; auto.
         rewrite Hd. destruct (String.eqb (fst d) name); cbn; rewrite IH; reflexivity. }
       rewrite E1, HF.
-      assert (F2 : Forall2 (pair_rel nonstr srt kind api s p)
+      assert (F2 : Forall2 (pair_rel nonstr hastype srt kind api s p)
                      (filter (fun kv : cnode * cnode => String.eqb (cvalue (fst kv)) name) kvs)
                      (filter (fun d => String.eqb (fst d) name) D)).
       { apply filter_Forall2. eapply Forall2_and_Forall with (Q := fun _ => True); [exact HD| |].
@@ -1310,12 +1318,13 @@ Qed.
 
 Section DocIdem.
   Variable nonstr : string -> bool.
+  Variable hastype : string -> string -> bool.
   Variable srt : sorter.
   Variable good : cnode -> Prop.
-  Hypothesis good_keeps : forall kind api n, good n -> keeps_order nonstr srt kind api n.
+  Hypothesis good_keeps : forall kind api n, good n -> keeps_order nonstr hastype srt kind api n.
   Hypothesis good_sub : forall h kvs, good (CMap h kvs) -> forall kv, In kv kvs -> good (snd kv).
-  Hypothesis idem : forall kind api n s p n', good n -> keyed_ok kind api p n = true ->
-    fmt_node nonstr srt kind api s p n = Ok n' -> fmt_node nonstr srt kind api s p n' = Ok n'.
+  Hypothesis idem : forall kind api n s p n', good n ->
+    fmt_node nonstr hastype srt kind api s p n = Ok n' -> fmt_node nonstr hastype srt kind api s p n' = Ok n'.
 
   Lemma get_field_good name n x : good n -> get_field name n = Ok (Some x) -> good x.
   Proof.
@@ -1325,15 +1334,15 @@ Section DocIdem.
   Qed.
 
   Lemma lookup_fields_fmt kind api : forall ps n n',
-    good n -> fmt_of nonstr srt kind api n n' ->
+    good n -> fmt_of nonstr hastype srt kind api n n' ->
     match lookup_fields ps n with
-    | Ok (Some x) => exists x', lookup_fields ps n' = Ok (Some x') /\ fmt_of nonstr srt kind api x x'
+    | Ok (Some x) => exists x', lookup_fields ps n' = Ok (Some x') /\ fmt_of nonstr hastype srt kind api x x'
     | r => lookup_fields ps n' = r
     end.
   Proof.
     induction ps as [|q ps IH]; intros n n' G [s [p F]]; cbn [lookup_fields].
     - eexists. split; [reflexivity|]. exists s, p. exact F.
-    - pose proof (get_field_fmt nonstr srt kind api q n s p n' (good_keeps kind api n G) F) as GF.
+    - pose proof (get_field_fmt nonstr hastype srt kind api q n s p n' (good_keeps kind api n G) F) as GF.
       destruct (get_field q n) as [[x|]| | |] eqn:E; cbn [bind].
       + destruct GF as [x' [E' FO]]. rewrite E'. cbn [bind].
         apply IH; auto. eapply get_field_good; eauto.
@@ -1343,11 +1352,11 @@ Section DocIdem.
       + rewrite GF. reflexivity.
   Qed.
 
-  Lemma fmt_of_cvalue kind api x x' : fmt_of nonstr srt kind api x x' -> cvalue x' = cvalue x.
+  Lemma fmt_of_cvalue kind api x x' : fmt_of nonstr hastype srt kind api x x' -> cvalue x' = cvalue x.
   Proof. intros [s [p F]]. eapply fmt_cvalue; eauto. Qed.
 
   Lemma get_strategy_fmt kind api n n' :
-    good n -> fmt_of nonstr srt kind api n n' -> get_strategy n' = get_strategy n.
+    good n -> fmt_of nonstr hastype srt kind api n n' -> get_strategy n' = get_strategy n.
   Proof.
     intros G F. unfold get_strategy.
     pose proof (lookup_fields_fmt kind api ["metadata"; "annotations"; fmt_annotation] n n' G F) as L.
@@ -1360,10 +1369,10 @@ Section DocIdem.
   Qed.
 
   Theorem filter_doc_idem s n n' :
-    good n -> doc_keyed_ok n = true ->
-    filter_doc nonstr srt s n = Ok n' -> filter_doc nonstr srt s n' = Ok n'.
+    good n ->
+    filter_doc nonstr hastype srt s n = Ok n' -> filter_doc nonstr hastype srt s n' = Ok n'.
   Proof.
-    intros G DK H. unfold filter_doc in H.
+    intros G H. unfold filter_doc in H.
     destruct (get_strategy n) as [st| | |] eqn:ES; cbn [bind] in H; try discriminate.
     destruct st.
     2:{ inv H. unfold filter_doc. rewrite ES. reflexivity. }
@@ -1372,50 +1381,48 @@ Section DocIdem.
     destruct (get_field "apiVersion" n) as [[an|]| | |] eqn:EA; cbn [bind] in H; try discriminate.
     2:{ inv H. unfold filter_doc. rewrite ES. cbn [bind]. rewrite EK. cbn [bind]. rewrite EA. reflexivity. }
     set (kind := cvalue kn) in *. set (api := cvalue an) in *.
-    assert (FO : fmt_of nonstr srt kind api n n') by (exists s, ""; exact H).
+    assert (FO : fmt_of nonstr hastype srt kind api n n') by (exists s, ""; exact H).
     unfold filter_doc. rewrite (get_strategy_fmt kind api n n' G FO), ES. cbn [bind].
-    pose proof (get_field_fmt nonstr srt kind api "kind" n s "" n' (good_keeps kind api n G) H) as GK.
+    pose proof (get_field_fmt nonstr hastype srt kind api "kind" n s "" n' (good_keeps kind api n G) H) as GK.
     rewrite EK in GK. destruct GK as [kn' [EK' FK]]. rewrite EK'. cbn [bind].
-    pose proof (get_field_fmt nonstr srt kind api "apiVersion" n s "" n' (good_keeps kind api n G) H) as GA.
+    pose proof (get_field_fmt nonstr hastype srt kind api "apiVersion" n s "" n' (good_keeps kind api n G) H) as GA.
     rewrite EA in GA. destruct GA as [an' [EA' FA]]. rewrite EA'. cbn [bind].
     rewrite (fmt_of_cvalue _ _ _ _ FK), (fmt_of_cvalue _ _ _ _ FA).
     eapply idem; eauto.
-    unfold doc_keyed_ok in DK. rewrite EK, EA in DK. exact DK.
   Qed.
 
   Theorem filter_stream_idem docs outs :
-    Forall (fun d => good (fst d) /\ doc_keyed_ok (fst d) = true) docs ->
-    filter_stream nonstr srt docs = Ok outs ->
-    filter_stream nonstr srt (combine outs (map snd docs)) = Ok outs.
+    Forall (fun d => good (fst d)) docs ->
+    filter_stream nonstr hastype srt docs = Ok outs ->
+    filter_stream nonstr hastype srt (combine outs (map snd docs)) = Ok outs.
   Proof.
     unfold filter_stream. intros HG H. apply mapM_ok in H. apply mapM_ok.
     induction H as [|d o t t' Hd _ IH]; cbn; [constructor|].
-    inv HG. destruct H1 as [G K]. constructor; auto. cbn. eapply filter_doc_idem; eauto.
+    inv HG. constructor; auto. cbn. eapply filter_doc_idem; eauto.
   Qed.
 End DocIdem.
 
-(* stable sort: every node *)
-Theorem filter_stream_idem_isort nonstr docs outs :
-  Forall (fun d => doc_keyed_ok (fst d) = true) docs ->
-  filter_stream nonstr isort docs = Ok outs ->
-  filter_stream nonstr isort (combine outs (map snd docs)) = Ok outs.
+(* stable sort: every stream *)
+Theorem filter_stream_idem_isort nonstr hastype docs outs :
+  filter_stream nonstr hastype isort docs = Ok outs ->
+  filter_stream nonstr hastype isort (combine outs (map snd docs)) = Ok outs.
 Proof.
-  intros HG. apply (filter_stream_idem nonstr isort (fun _ => True)).
+  apply (filter_stream_idem nonstr hastype isort (fun _ => True)).
   - intros kind api n _ h kvs _ s p D name HD. unfold isort. split.
     + apply isort_perm.
     + apply (isort_filter less_key less_key_strict_total).
   - auto.
   - intros kind api n s p n' _. apply fmt_idem_isort.
-  - rewrite Forall_forall in *. intros d Hin. split; auto.
+  - rewrite Forall_forall. auto.
 Qed.
 
 (* any (S1) sort: documents with unique keys *)
-Theorem filter_stream_idem_S1 nonstr srt docs outs : S1 srt ->
-  Forall (fun d => wf_keys (fst d) = true /\ doc_keyed_ok (fst d) = true) docs ->
-  filter_stream nonstr srt docs = Ok outs ->
-  filter_stream nonstr srt (combine outs (map snd docs)) = Ok outs.
+Theorem filter_stream_idem_S1 nonstr hastype srt docs outs : S1 srt ->
+  Forall (fun d => wf_keys (fst d) = true) docs ->
+  filter_stream nonstr hastype srt docs = Ok outs ->
+  filter_stream nonstr hastype srt (combine outs (map snd docs)) = Ok outs.
 Proof.
-  intros HS1 HG. apply (filter_stream_idem nonstr srt (fun n => wf_keys n = true)).
+  intros HS1 HG. apply (filter_stream_idem nonstr hastype srt (fun n => wf_keys n = true)).
   - intros kind api n W h kvs -> s p D name HD.
     destruct (HS1 _ less_key less_key_strict_total D) as [HP _]. split; [exact HP|].
     apply perm_filter_unique; [|exact HP].
@@ -1425,7 +1432,7 @@ Proof.
     rewrite H. exact Nd.
   - intros h kvs W kv Hin. apply wf_keys_map in W. destruct W as [_ W].
     rewrite Forall_forall in W. apply (W kv Hin).
-  - intros kind api n s p n' W K. apply fmt_idem_S1; auto.
+  - intros kind api n s p n' W. apply fmt_idem_S1; auto.
   - exact HG.
 Qed.
 
@@ -1441,6 +1448,7 @@ Qed.
 
 Section SortIndependent.
   Variable nonstr : string -> bool.
+  Variable hastype : string -> string -> bool.
   Variables srt srt' : sorter.
   Variables kind api : string.
   Hypothesis H1 : S1 srt.
@@ -1448,16 +1456,16 @@ Section SortIndependent.
 
   Theorem fmt_sort_independent : forall n s p,
     distinct_sortkeys kind api p n = true ->
-    fmt_node nonstr srt kind api s p n = fmt_node nonstr srt' kind api s p n.
+    fmt_node nonstr hastype srt kind api s p n = fmt_node nonstr hastype srt' kind api s p n.
   Proof.
     induction n as [h v|h v|h kvs IH|h es IH] using cnode_ind'; intros s p HD; auto.
     - rewrite !fmt_map_eq. cbn [distinct_sortkeys] in HD. apply andb_true_iff in HD. destruct HD as [Nd HD].
-      assert (EP : fmt_pairs nonstr srt kind api s p kvs = fmt_pairs nonstr srt' kind api s p kvs).
+      assert (EP : fmt_pairs nonstr hastype srt kind api s p kvs = fmt_pairs nonstr hastype srt' kind api s p kvs).
       { clear Nd. induction kvs as [|kv t IHt]; cbn [fmt_pairs]; auto.
         inversion IH as [|? ? [I1 I2] IH']; subst.
         apply andb_true_iff in HD. destruct HD as [HD HD3]. apply andb_true_iff in HD. destruct HD as [HD1 HD2].
         rewrite (I1 SNil p HD1), (I2 _ _ HD2), (IHt IH' HD3). reflexivity. }
-      rewrite EP. destruct (fmt_pairs nonstr srt' kind api s p kvs) as [D| | |] eqn:ED; auto.
+      rewrite EP. destruct (fmt_pairs nonstr hastype srt' kind api s p kvs) as [D| | |] eqn:ED; auto.
       cbn [bind]. f_equal. f_equal. f_equal.
       apply (S1_unique srt srt' H1 H2 _ less_key less_key_strict_total).
       apply fpairs_ok in ED.
@@ -1465,12 +1473,12 @@ Section SortIndependent.
       { clear - ED. unfold key_values. induction ED as [|kv d t D' [R1 _] _ IHd]; cbn; congruence. }
       rewrite H. apply nodup_strs_NoDup. exact Nd.
     - rewrite !fmt_seq_eq. cbn [distinct_sortkeys] in HD. apply andb_true_iff in HD. destruct HD as [HK HD].
-      assert (EE : forall s0, fmt_elems nonstr srt kind api s0 p es = fmt_elems nonstr srt' kind api s0 p es).
+      assert (EE : forall s0, fmt_elems nonstr hastype srt kind api s0 p es = fmt_elems nonstr hastype srt' kind api s0 p es).
       { intros s0. clear HK. induction es as [|e t IHt]; cbn [fmt_elems]; auto.
         inversion IH as [|? ? I1 IH']; subst.
         apply andb_true_iff in HD. destruct HD as [HD1 HD2].
         rewrite (I1 _ _ HD1), (IHt IH' HD2). reflexivity. }
-      rewrite EE. destruct (fmt_elems nonstr srt' kind api (sch_elems s) p es) as [E| | |]; auto.
+      rewrite EE. destruct (fmt_elems nonstr hastype srt' kind api (sch_elems s) p es) as [E| | |]; auto.
       cbn [bind]. destruct (sort_field kind api p) as [f|]; auto.
       destruct (seq_keys f es) as [K| | |]; auto.
       cbn [bind]. f_equal. f_equal. f_equal.
@@ -1479,17 +1487,6 @@ Section SortIndependent.
   Qed.
 End SortIndependent.
 
-(* FormatNonStringStyle tags a scalar with the schema's type whatever the scalar holds: a boolean
-   text at an integer-typed position ends up tagged !!int (which no decoder accepts) *)
-Theorem schema_retag_refuted :
-  exists (nonstr : string -> bool) h v,
-    nonstr v = true /\ v = "true" /\ h_tag h = "!!bool" /\
-    h_tag (fmt_nonstring nonstr ["integer"] "" h v) = "!!int".
-Proof.
-  exists (fun _ => true), (mkHdr "" "" "" "" "!!bool" 0), "true".
-  repeat split; vm_compute; reflexivity.
-Qed.
-
 (* ---------- anchors ---------- *)
 
 (* data: { b: &x hello, a: *x }  — sorting the fields puts the alias in front of its anchor *)
@@ -1497,11 +1494,11 @@ Definition wit_alias : cnode :=
   wm [("apiVersion", ws "v1"); ("kind", ws "ConfigMap");
       ("data", wm [("b", CScalar (mkHdr "" "" "" "x" "" 0) "hello"); ("a", CAlias hd0 "x")])].
 
-Theorem fmt_anchor_order_refuted : forall nonstr, exists n n',
+Theorem fmt_anchor_order_refuted : forall nonstr hastype, exists n n',
   wf_keys n = true /\ anchors_ok n = true /\
-  filter_doc nonstr isort SNil n = Ok n' /\ anchors_ok n' = false.
+  filter_doc nonstr hastype isort SNil n = Ok n' /\ anchors_ok n' = false.
 Proof.
-  intros nonstr. exists wit_alias. eexists.
+  intros nonstr hastype. exists wit_alias. eexists.
   split; [vm_compute; reflexivity|]. split; [vm_compute; reflexivity|].
   split; [vm_compute; reflexivity|]. vm_compute. reflexivity.
 Qed.
@@ -1517,3 +1514,272 @@ Proof. reflexivity. Qed.
 
 Lemma Gen_type_to_tag_eq_ref : type_to_tag = ref_type_to_tag.
 Proof. reflexivity. Qed.
+
+(* ---------- the output is in canonical order ---------- *)
+
+Lemma sorted_sortedb_keys {B} cmp (S : list (string * B)) :
+  sorted cmp S -> sortedb cmp (map fst S) = true.
+Proof.
+  induction 1 as [|x t Hs IH Hall]; cbn; auto.
+  rewrite IH, andb_true_r. rewrite forallb_forall. intros y Hy.
+  apply in_map_iff in Hy. destruct Hy as [d [<- Hd]].
+  rewrite Forall_forall in Hall. specialize (Hall d Hd). unfold le_fst in Hall. rewrite Hall. reflexivity.
+Qed.
+
+Lemma sortedb_short {A} (lt : A -> A -> bool) l : (List.length l < 2)%nat -> sortedb lt l = true.
+Proof. destruct l as [|x [|y t]]; cbn; auto; lia. Qed.
+
+Section OutputSorted.
+  Variable nonstr : string -> bool.
+  Variable hastype : string -> string -> bool.
+  Variables kind api : string.
+
+  Lemma isort_elem_keeps_key f e s p e' k :
+    fmt_node nonstr hastype isort kind api s p e = Ok e' -> seq_key f e = Ok k -> seq_key f e' = Ok k.
+  Proof.
+    apply (elem_keeps_key nonstr hastype kind api isort (fun _ => True)); auto.
+    intros s1 p1 h0 kvs f0 _ D _. unfold isort. split.
+    - apply isort_perm.
+    - apply (isort_filter less_key less_key_strict_total).
+  Qed.
+
+  Theorem fmt_output_sorted : forall n s p n',
+    fmt_node nonstr hastype isort kind api s p n = Ok n' -> canon_sorted kind api p n' = true.
+  Proof.
+    induction n as [h v|h v|h kvs IH|h es IH] using cnode_ind'; intros s p n' H.
+    - cbn in H. inv H. reflexivity.
+    - cbn in H. inv H. reflexivity.
+    - rewrite fmt_map_eq in H. apply bind_ok in H. destruct H as [D [HD H]]. inv H.
+      apply fpairs_ok in HD.
+      destruct (isort_S1 _ less_key less_key_strict_total D) as [HP [HSo _]].
+      set (S := isort _ (lt_fst less_key) D) in *.
+      assert (HQ : Forall (fun d : string * (cnode * cnode) =>
+                     cvalue (fst (snd d)) = fst d /\
+                     canon_sorted kind api p (fst (snd d)) = true /\
+                     canon_sorted kind api (p ++ "." ++ fst d) (snd (snd d)) = true) S).
+      { eapply Forall_perm; [apply Permutation_sym; exact HP|].
+        eapply Forall2_Forall_r; [exact HD|exact IH|].
+        intros kv d [I1 I2] [R1 [R2 R3]].
+        rewrite R1. split; [apply (fmt_cvalue _ _ _ _ _ _ _ _ _ R2)|]. split; [exact (I1 _ _ _ R2)|exact (I2 _ _ _ R3)]. }
+      cbn [canon_sorted]. apply andb_true_iff. split.
+      + replace (key_values (map snd S)) with (map fst S); [apply sorted_sortedb_keys; exact HSo|].
+        unfold key_values. rewrite map_map. clear - HQ.
+        induction HQ as [|d t [E _] _ IHt]; cbn; auto. rewrite E, IHt. reflexivity.
+      + clear - HQ. induction HQ as [|d t [E [C1 C2]] _ IHt]; cbn [map]; auto.
+        rewrite C1, E, C2, IHt. reflexivity.
+    - rewrite fmt_seq_eq in H. apply bind_ok in H. destruct H as [E [HE H]].
+      apply felems_ok in HE.
+      assert (HC : Forall (fun e' => canon_sorted kind api p e' = true) E).
+      { eapply Forall2_Forall_r; [exact HE|exact IH|]. intros e e' I R. exact (I _ _ _ R). }
+      assert (GO : forall l, Forall (fun e' => canon_sorted kind api p e' = true) l ->
+                 (fix go (l : list cnode) : bool :=
+                    match l with [] => true | e :: t => canon_sorted kind api p e && go t end) l = true).
+      { induction 1 as [|x t Hx _ IHt]; auto. rewrite Hx, IHt. reflexivity. }
+      destruct (sort_field kind api p) as [f|] eqn:SF.
+      + apply bind_ok in H. destruct H as [K [HK H]]. inv H.
+        destruct (isort_S1 _ String.ltb ltb_strict_total (combine K E)) as [HP [HSo _]].
+        set (S := isort _ (lt_fst String.ltb) (combine K E)) in *.
+        cbn [canon_sorted]. rewrite SF. apply andb_true_iff. split.
+        * assert (LE : List.length E = List.length es) by (symmetry; eapply Forall2_length'; eauto).
+          assert (LK : List.length K = List.length es) by (eapply seq_keys_length; eauto).
+          assert (LS : List.length (map snd S) = List.length es).
+          { rewrite map_length, (Permutation_length HP), combine_length. lia. }
+          unfold seq_keys in HK. destruct (2 <=? List.length es)%nat eqn:E2.
+          -- apply mapM_ok in HK.
+             pose proof (Forall2_combine _ _ _ _ _ HK HE) as HCm.
+             assert (HF : Forall (fun d : string * cnode => seq_key f (snd d) = Ok (fst d)) S).
+             { eapply Forall_perm; [apply Permutation_sym; exact HP|].
+               eapply Forall2_Forall_r with (Q := fun _ => True); [exact HCm| |].
+               - rewrite Forall_forall. auto.
+               - intros e d _ [R1 R2]. eapply isort_elem_keeps_key; eauto. }
+             assert (HM : mapM (seq_key f) (map snd S) = Ok (map fst S)).
+             { apply mapM_ok. clear - HF. induction HF as [|d t Hd _ IHt]; cbn; constructor; auto. }
+             rewrite HM. apply sorted_sortedb_keys. exact HSo.
+          -- apply Nat.leb_gt in E2.
+             assert (HT : exists K', mapM (seq_key f) (map snd S) = Ok K').
+             { clear. induction (map snd S) as [|e t [K' HK']]; cbn; [eauto|].
+               destruct (seq_key_ok f e) as [k Hk]. rewrite Hk, HK'. cbn. eauto. }
+             destruct HT as [K' HK']. rewrite HK'. apply sortedb_short.
+             apply mapM_ok in HK'. rewrite <- (Forall2_length' _ _ _ HK'). lia.
+        * apply GO. eapply Forall_perm with (l := E).
+          -- assert (PE : Permutation (map snd S) (map snd (combine K E))) by (apply Permutation_map; exact HP).
+             assert (LK : List.length K = List.length E).
+             { rewrite (seq_keys_length _ _ _ HK). eapply Forall2_length'; eauto. }
+             assert (ME : map snd (combine K E) = E).
+             { clear - LK. revert E LK. induction K as [|k K IHK]; intros [|e E] L; cbn in *; try discriminate; auto.
+               f_equal. apply IHK. lia. }
+             rewrite ME in PE. apply Permutation_sym. exact PE.
+          -- exact HC.
+      + inv H. cbn [canon_sorted]. rewrite SF. cbn [andb]. apply GO. exact HC.
+  Qed.
+End OutputSorted.
+
+(* ---------- the alias-free fragment: formatting cannot make a document unparsable through anchors ---------- *)
+
+Lemma alias_free_map h kvs :
+  alias_free (CMap h kvs) = true <-> Forall (fun kv => alias_free (fst kv) = true /\ alias_free (snd kv) = true) kvs.
+Proof.
+  cbn [alias_free]. induction kvs as [|kv t IH]; [split; auto|].
+  rewrite !andb_true_iff, IH. split.
+  - intros [[A B] C]. constructor; auto.
+  - intros H. inv H. destruct H2. auto.
+Qed.
+
+Lemma alias_free_seq h es : alias_free (CSeq h es) = true <-> Forall (fun e => alias_free e = true) es.
+Proof.
+  cbn [alias_free]. induction es as [|e t IH]; [split; auto|].
+  rewrite andb_true_iff, IH. split.
+  - intros [A B]. constructor; auto.
+  - intros H. inv H. auto.
+Qed.
+
+Lemma alias_free_scan : forall n seen, alias_free n = true -> exists seen', anchors_scan n seen = Some seen'.
+Proof.
+  induction n as [h v|h v|h kvs IH|h es IH] using cnode_ind'; intros seen AF.
+  - cbn. eauto.
+  - discriminate.
+  - apply alias_free_map in AF. cbn [anchors_scan].
+    generalize (if String.eqb (h_anchor (chdr (CMap h kvs))) "" then seen else h_anchor (chdr (CMap h kvs)) :: seen).
+    induction kvs as [|kv t IHt]; intros sn; [eauto|].
+    inversion IH as [|? ? [I1 I2] IH']; subst. inversion AF as [|? ? [A1 A2] AF']; subst.
+    destruct (I1 sn A1) as [s1 E1]. rewrite E1. destruct (I2 s1 A2) as [s2 E2]. rewrite E2.
+    apply IHt; auto.
+  - apply alias_free_seq in AF. cbn [anchors_scan].
+    generalize (if String.eqb (h_anchor (chdr (CSeq h es))) "" then seen else h_anchor (chdr (CSeq h es)) :: seen).
+    induction es as [|e t IHt]; intros sn; [eauto|].
+    inversion IH as [|? ? I1 IH']; subst. inversion AF as [|? ? A1 AF']; subst.
+    destruct (I1 sn A1) as [s1 E1]. rewrite E1. apply IHt; auto.
+Qed.
+
+Theorem fmt_alias_free nonstr hastype srt kind api : S1 srt -> forall n s p n',
+  alias_free n = true -> fmt_node nonstr hastype srt kind api s p n = Ok n' ->
+  alias_free n' = true /\ anchors_ok n' = true.
+Proof.
+  intros HS1.
+  assert (G : forall n s p n', alias_free n = true ->
+            fmt_node nonstr hastype srt kind api s p n = Ok n' -> alias_free n' = true).
+  { induction n as [h v|h v|h kvs IH|h es IH] using cnode_ind'; intros s p n' AF H.
+    - cbn in H. inv H. reflexivity.
+    - discriminate.
+    - rewrite fmt_map_eq in H. apply bind_ok in H. destruct H as [D [HD H]]. inv H.
+      apply fpairs_ok in HD. apply alias_free_map in AF.
+      destruct (HS1 _ less_key less_key_strict_total D) as [HP _].
+      apply alias_free_map. apply Forall_forall. intros kv Hin.
+      apply in_map_iff in Hin. destruct Hin as [d [<- Hd]].
+      apply (Permutation_in _ HP) in Hd.
+      assert (HQ : Forall (fun d : string * (cnode * cnode) =>
+                     alias_free (fst (snd d)) = true /\ alias_free (snd (snd d)) = true) D).
+      { assert (HA : Forall (fun kv => (alias_free (fst kv) = true /\ alias_free (snd kv) = true) /\
+                         ((forall s p n', alias_free (fst kv) = true ->
+                             fmt_node nonstr hastype srt kind api s p (fst kv) = Ok n' -> alias_free n' = true) /\
+                          (forall s p n', alias_free (snd kv) = true ->
+                             fmt_node nonstr hastype srt kind api s p (snd kv) = Ok n' -> alias_free n' = true))) kvs).
+        { rewrite Forall_forall in *. intros kv Hkv. split; [auto|apply (IH kv Hkv)]. }
+        eapply Forall2_Forall_r; [exact HD|exact HA|].
+        intros kv d0 [[A1 A2] [I1 I2]] [R1 [R2 R3]]. split; [exact (I1 _ _ _ A1 R2)|exact (I2 _ _ _ A2 R3)]. }
+      rewrite Forall_forall in HQ. apply HQ. exact Hd.
+    - rewrite fmt_seq_eq in H. apply bind_ok in H. destruct H as [E [HE H]].
+      apply felems_ok in HE. apply alias_free_seq in AF.
+      assert (HC : Forall (fun e' => alias_free e' = true) E).
+      { assert (HA : Forall (fun e => alias_free e = true /\
+                         (forall s p n', alias_free e = true ->
+                            fmt_node nonstr hastype srt kind api s p e = Ok n' -> alias_free n' = true)) es).
+        { rewrite Forall_forall in *. intros e He. split; [auto|apply (IH e He)]. }
+        eapply Forall2_Forall_r; [exact HE|exact HA|]. intros e e' [A I] R. exact (I _ _ _ A R). }
+      destruct (sort_field kind api p) as [f|].
+      + apply bind_ok in H. destruct H as [K [HK H]]. inv H.
+        destruct (HS1 _ String.ltb ltb_strict_total (combine K E)) as [HP _].
+        apply alias_free_seq. apply Forall_forall. intros e Hin.
+        apply in_map_iff in Hin. destruct Hin as [d [<- Hd]].
+        apply (Permutation_in _ HP) in Hd. destruct d as [k0 e0]. apply in_combine_r in Hd.
+        rewrite Forall_forall in HC. cbn. auto.
+      + inv H. apply alias_free_seq. exact HC. }
+  intros n s p n' AF H. pose proof (G n s p n' AF H) as A. split; auto.
+  unfold anchors_ok. destruct (alias_free_scan n' [] A) as [s' E]. rewrite E. reflexivity.
+Qed.
+
+(* ---------- YAML 1.1 resolution inside the model (Yaml/Resolve11.v) ---------- *)
+
+Lemma safe_char_not_newline c : safe_char c = true -> negb (code c =? 10)%N = true.
+Proof.
+  destruct c as [b0 b1 b2 b3 b4 b5 b6 b7].
+  destruct b0, b1, b2, b3, b4, b5, b6, b7; vm_compute; auto.
+Qed.
+
+Lemma in_fragment_plain v : in_fragment v = true -> (String.eqb v "" || has_newline v) = false.
+Proof.
+  unfold in_fragment. rewrite !andb_true_iff. intros [[[[F A] _] _] _].
+  destruct v as [|c r]; [discriminate|]. cbn [String.eqb orb].
+  unfold has_newline. replace (all_chars (fun c0 => negb (code c0 =? 10)%N) (String c r)) with true; auto.
+  symmetry. clear F. induction (String c r) as [|d t IH]; cbn in *; auto.
+  apply andb_true_iff in A. destruct A as [A1 A2]. rewrite (safe_char_not_newline _ A1), IH; auto.
+Qed.
+
+Lemma resolve11_fragment v r : resolve11 v = Some r -> in_fragment v = true.
+Proof. unfold resolve11. destruct (in_fragment v); cbn; auto; discriminate. Qed.
+
+Lemma nonstr_m_resolved o v r : resolve11 v = Some r -> nonstr_m o v = negb (rtag_eqb r RStr).
+Proof.
+  intros H. unfold nonstr_m. rewrite (in_fragment_plain _ (resolve11_fragment _ _ H)), H. reflexivity.
+Qed.
+
+Lemma hastype_m_resolved o v r t : resolve11 v = Some r -> hastype_m o v t = rtag_has_type r t.
+Proof. intros H. unfold hastype_m. rewrite H. reflexivity. Qed.
+
+Section SchemaQuoteResolved.
+  Variable o1 : string -> bool.               (* residual oracles, consulted outside the fragment only *)
+  Variable o2 : string -> string -> bool.
+  Variables (h : hdr) (v : string) (r : rtag).
+  Hypothesis HR : resolve11 v = Some r.
+
+  Notation fns := (fmt_nonstring (nonstr_m o1) (hastype_m o2)).
+
+  (* a text that YAML 1.1 resolves to a string is never touched, whatever the schema says *)
+  Lemma sqr_string_untouched types format : r = RStr -> fns types format h v = h.
+  Proof. intros ->. apply sq_untouched. rewrite (nonstr_m_resolved _ _ _ HR). reflexivity. Qed.
+
+  (* a non-string text at a string-typed position is quoted and tagged !!str *)
+  Lemma sqr_quoted format :
+    r <> RStr -> String.eqb format "int-or-string" = false -> String.eqb (h_tag h) node_tag_null = false ->
+    style_quoted (h_style (fns ["string"] format h v)) = true /\ h_tag (fns ["string"] format h v) = "!!str".
+  Proof.
+    intros N F T. apply sq_string; auto. rewrite (nonstr_m_resolved _ _ _ HR). destruct r; auto; congruence.
+  Qed.
+
+  (* at a boolean / integer / number position: unquoted and tagged when the text has that type,
+     untouched otherwise *)
+  Lemma sqr_typed t format tg :
+    is_num_type t -> rtag_has_type r t = true -> assoc_str t type_to_tag = Some tg ->
+    String.eqb (h_tag h) node_tag_null = false ->
+    style_quoted (h_style (fns [t] format h v)) = false /\ h_tag (fns [t] format h v) = tg.
+  Proof.
+    intros Ht HT A T. apply sq_number; auto.
+    - rewrite (nonstr_m_resolved _ _ _ HR). destruct r; auto; destruct Ht as [->|[->| ->]]; discriminate.
+    - rewrite (hastype_m_resolved _ _ _ _ HR). exact HT.
+  Qed.
+
+  Lemma sqr_mistyped t format : is_num_type t -> rtag_has_type r t = false -> fns [t] format h v = h.
+  Proof. intros Ht HT. apply sq_mistyped; auto. rewrite (hastype_m_resolved _ _ _ _ HR). exact HT. Qed.
+End SchemaQuoteResolved.
+
+(* concrete instances, whatever the residual oracles answer *)
+Example resolve11_examples :
+  map resolve11 ["yes"; "On"; "yEs"; "~"; "010"; "08"; "0x1F"; "0o7"; "1_000"; "1e3"; ".5"; "-.inf"; "1.2.3"; "web"; "-x"] =
+  [Some RBool; Some RBool; Some RStr; Some RNull; Some RInt; Some RFloat; Some RInt; Some RInt; Some RInt;
+   Some RFloat; Some RFloat; Some RFloat; Some RStr; Some RStr; Some RStr] /\
+  map resolve11 ["2001-01-01"; "a b"; "a: b"; "1e100"; "-"; ""] = [None; None; None; None; None; None].
+Proof. split; vm_compute; reflexivity. Qed.
+
+Example schema_quote_examples : forall o1 o2,
+  let plain := mkHdr "" "" "" "" "!!str" 0 in
+  let quoted := mkHdr "" "" "" "" "!!str" 2 in
+  (* label value `on` (string position): quoted *)
+  fmt_nonstring (nonstr_m o1) (hastype_m o2) ["string"] "" (mkHdr "" "" "" "" "!!bool" 0) "on" =
+    mkHdr "" "" "" "" "!!str" 2 /\
+  (* replicas: "3" (integer position): unquoted, !!int *)
+  fmt_nonstring (nonstr_m o1) (hastype_m o2) ["integer"] "int32" quoted "3" = mkHdr "" "" "" "" "!!int" 0 /\
+  (* replicas: "true" (integer position): left as written *)
+  fmt_nonstring (nonstr_m o1) (hastype_m o2) ["integer"] "int32" quoted "true" = quoted /\
+  (* image: nginx : untouched *)
+  fmt_nonstring (nonstr_m o1) (hastype_m o2) ["string"] "" plain "nginx" = plain.
+Proof. intros o1 o2. repeat split; vm_compute; reflexivity. Qed.
